@@ -16,7 +16,7 @@ RULE = ("chain and two-branch topologies giving routes of 1..8 hops between real
         "(NETWORK_ACK frames by originator/PID, reception time at the origin) and the call history "
         "(result, virtual duration). Non-trivial: >=1 frame crossed the air and quiescence was "
         "reached; distinct = (hops, type class, fault plan kind and position, timeouts).")
-RULE += (" Later rounds added: same-header re-sends, foreign frames to relay during the origin's wait (with and without loss), multicast-off nodes, multicasts through relays (no NETWORK_ACK), multicast_level overrides, a frame to relay queued in the origin's RX FIFO just ahead of its NETWORK_ACK.")
+RULE += (" Later rounds added: same-header re-sends, foreign frames to relay during the origin's wait (with and without loss), multicast-off nodes, multicasts through relays (no NETWORK_ACK), multicast_level overrides, a frame to relay queued in the origin's RX FIFO just ahead of its NETWORK_ACK, a frame for the origin itself right behind it, a hop that is deaf for a swept time around the sending hop's tx_timeout.")
 REQUIRED = {"result_vs_ack_arrival": 150, "ack_count": 300, "no_ack_for_others": 150,
             "duration_bound": 300}
 BUDGET = {"quick": 480, "thorough": 900}
@@ -47,7 +47,32 @@ def chains(rng):
     return nodes
 
 
+def gen_outage_sweeps(ctx):
+    """fixed chains; one hop of an acknowledged 2..3-hop message is deaf from its first attempt on
+    for tx_timeout - 2 .. tx_timeout + 16 ms in half-millisecond steps: the sending hop's last retry
+    burst begins before its deadline and may be acknowledged after it"""
+    rng = ctx.sub_rng("c13sweep")
+    step = 0.5 if ctx.tier == "quick" else 0.125
+    for nodes, src, dst in (([0, 0o1, 0o11, 0o111], 0o111, 0), ([0, 0o3, 0o23, 0o4], 0o4, 0o23),
+                            ([0, 0o2, 0o52], 0o52, 0), ([0, 0o5, 0o15, 0o315], 0, 0o315)):
+        path = [src] + net_ref.tree_path(src, dst)
+        for tx_to in (5, 25, 60):
+            for hop in sorted({len(path) - 2, 0}):
+                msgs = []
+                d = tx_to - 2.0
+                while d <= tx_to + 16.0:
+                    msgs.append({"src": src, "dst": dst, "type": 65 + len(msgs) % 100, "len": 4,
+                                 "plan": {"kind": "fwd_outage", "node": path[hop], "ms": round(d, 3)}})
+                    d += step
+                for k in range(0, len(msgs), 12):
+                    yield {"nodes": nodes, "msgs": msgs[k:k + 12], "tx_timeout": tx_to, "route_timeout": 200,
+                           "mc_off": [], "relay": [], "mlevel": {},
+                           "profiles": {str(a): N.rand_profile(rng, base=40000) for a in nodes},
+                           "seed": rng.getrandbits(30)}
+
+
 def gen_cases(ctx):
+    yield from gen_outage_sweeps(ctx)
     rng = ctx.sub_rng("c13")
     rng2 = ctx.sub_rng("c13b")  # later additions draw from their own stream
     ntop = 220 if ctx.tier == "quick" else 8000
@@ -111,6 +136,15 @@ def gen_cases(ctx):
                 absent = [a for a in kids if a not in nodes and a != net_ref.DEFAULT_ADDR]
                 if absent:
                     ms["foreign"] = {"to": rng2.choice(absent), "type": rng2.choice([193, 70, 1]), "trigger": "with_ack"}
+                    if rng2.random() < 0.4:
+                        # ... or a frame FOR the origin (from that child) lands right behind the ACK
+                        ms["foreign"] = {"to": ms["foreign"]["to"], "type": rng2.choice([1, 64, 100]), "trigger": "behind_ack"}
+            if ms["plan"] is None and "foreign" not in ms and "mc" not in ms and len(path) >= 3 and rng2.random() < 0.25:
+                # one hop is deaf for a while from its first attempt on: an outage that ends around the
+                # moment the sending hop's tx_timeout runs out (a retry that begins before the deadline
+                # and is acknowledged after it still delivered the frame)
+                j = rng2.choice([len(path) - 2, rng2.randrange(len(path) - 1)])
+                ms["plan"] = {"kind": "fwd_outage", "node": path[j], "ms": round(tx_to + rng2.uniform(-3.0, 14.0), 2)}
             msgs.append(ms)
             if rng.random() < 0.25:
                 # the application sends the same header object again (same id, same type)
@@ -178,12 +212,27 @@ def _run(ctx, case, net):
                 active["foreign"] = None
                 rx.inject_rx(0, net_ref.pack_header(fo["to"], fo["to"], FOREIGN_ID, fo["type"], 0))
                 ctx.count("foreign_frames_queued_ahead_of_the_ack")
+        if (fo is not None and fo.get("trigger") == "behind_ack" and pkt.kind == "data" and len(pkt.payload) >= 8
+                and rx is net.bykey[active["origin"]].radio and not rx.rx_fifo):
+            h0 = net_ref.unpack_header(pkt.payload)
+            if h0["id"] == active["mid"] and h0["type"] == net_ref.NETWORK_ACK and h0["from"] == h0["to"] == active["origin"]:
+                active["foreign"] = None
+                net.world.at(net.world.now + 2 * W.US, rx.inject_rx, 1,
+                             net_ref.pack_header(fo["to"], active["origin"], FOREIGN_ID, fo["type"], 0) + b"hello")
+                ctx.count("foreign_frames_queued_right_behind_the_ack")
         if pl is None or pkt.kind != "data" or len(pkt.payload) < 8:
             return False
         h = net_ref.unpack_header(pkt.payload)
         if h["id"] != active["mid"] or pkt.src is not net.bykey[pl["node"]].radio:
             return False
         is_ack = h["type"] == net_ref.NETWORK_ACK and h["from"] == h["to"] == active["origin"]
+        if pl["kind"] == "fwd_outage":
+            if is_ack or h["from"] != active["origin"]:
+                return False
+            if "until" not in pl:
+                pl["until"] = pkt.t0 + int(pl["ms"] * W.MS)
+                ctx.count("forward_outages")
+            return pkt.t0 < pl["until"]
         if pl["kind"] == "ack":
             fo = active["foreign"]
             if is_ack and fo is not None:
@@ -211,7 +260,7 @@ def _run(ctx, case, net):
                 h = Hdr(ms["dst"], ms["type"])
             last_hdr[ms["src"]] = h
             ms["_fid"] = h.frame_id
-            active["plan"], active["mid"], active["origin"] = ms["plan"], h.frame_id, ms["src"]
+            active["plan"], active["mid"], active["origin"] = (dict(ms["plan"]) if ms["plan"] else None), h.frame_id, ms["src"]
             active["foreign"] = ms.get("foreign") if h.frame_id != FOREIGN_ID else None
             return nn.obj.send(h, bytes([k & 0xFF]) * ms["len"])
         net.steps.append({"who": ms["src"], "name": "send", "fn": fn, "deadline_ms": 4000,
